@@ -79,20 +79,21 @@ pub fn frame_to_pcm(f: &Frame) -> Result<Vec<Vec<i64>>, String> {
     Ok(match f.header.channel_assignment {
         ChannelAssignment::Independent(_) => chans,
         ChannelAssignment::LeftSide => {
-            let r: Vec<i64> = chans[0].iter().zip(&chans[1]).map(|(l, s)| l - s).collect();
+            let r: Vec<i64> = chans[0].iter().zip(&chans[1]).map(|(l, s)| l.wrapping_sub(*s)).collect();
             vec![chans[0].clone(), r]
         }
         ChannelAssignment::SideRight => {
-            let l: Vec<i64> = chans[0].iter().zip(&chans[1]).map(|(s, r)| s + r).collect();
+            let l: Vec<i64> = chans[0].iter().zip(&chans[1]).map(|(s, r)| s.wrapping_add(*r)).collect();
             vec![l, chans[1].clone()]
         }
         ChannelAssignment::MidSide => {
             let mut l = vec![];
             let mut r = vec![];
             for (m, s) in chans[0].iter().zip(&chans[1]) {
-                let m2 = (m << 1) | (s & 1);
-                l.push((m2 + s) >> 1);
-                r.push((m2 - s) >> 1);
+                // hostile frames reach this with arbitrary 64-bit values: wrap, never trap
+                let m2 = m.wrapping_shl(1) | (s & 1);
+                l.push(m2.wrapping_add(*s) >> 1);
+                r.push(m2.wrapping_sub(*s) >> 1);
             }
             vec![l, r]
         }
